@@ -39,6 +39,15 @@ def _argPathMatches(arg, value):
     )
 
 
+def _inBusNamespace(name, namespace):
+    """
+    arg0namespace rule: the bus or interface name is the namespace itself or
+    lies below it ('com.ex' contains 'com.ex' and 'com.ex.a' but not
+    'com.exa')
+    """
+    return name == namespace or name.startswith(namespace + '.')
+
+
 class Rule :
     """
     Represents a single match rule
@@ -89,7 +98,13 @@ class Rule :
                     if idx >= len(body) or not _argPathMatches(body[idx], val):
                         return
 
-            # XXX arg0namespace -- Not quite sure how this one works
+            if hasattr(self, 'arg0namespace'):
+                if (
+                    len(body) == 0
+                    or not isinstance(body[0], str)
+                    or not _inBusNamespace(body[0], self.arg0namespace)
+                ):
+                    return
 
             # if we get here, we have a match
             self.callback(m)
